@@ -5,6 +5,7 @@ import (
 	"fmt"
 	"os"
 	"path/filepath"
+	"runtime/debug"
 	"sort"
 	"strings"
 	"time"
@@ -166,6 +167,9 @@ func RunRules(p *Program, rules []*RuleInfo, thorough bool) ([]Obligation, []*Ru
 			defer func() {
 				if e := recover(); e != nil {
 					st.Panicked = fmt.Sprint(e)
+					if os.Getenv("MOCVERIF_DEBUG") != "" {
+						fmt.Fprintf(os.Stderr, "rule %s panicked: %v\n%s\n", r.Name, e, debug.Stack())
+					}
 					c.emit(Undecided, nil, "checker-panic", "-", "-", fmt.Sprintf("rule panicked: %v", e), true)
 				}
 			}()
